@@ -4,7 +4,9 @@ From Verif Require Import Gen.GenReports Gen.GenGState Model.GState.
 Import ListNotations.
 Open Scope Z_scope.
 
-(* equality of module-level states: the is_awaiting flags are compared object by object *)
+(* equality of module-level states as far as they are RESTORED: depth, the two stacks and the is_awaiting flags
+   (compared object by object).  try_compute.not_ready_yet ([nry]) is deliberately not part of it: it is not
+   restored -- it is replaced on the next outermost __enter__ and only read while speculating, see [agree]. *)
 Definition gstate_eq (a b : gstate) : Prop :=
   depth a = depth b /\ awaiting a = awaiting b /\ handlers a = handlers b /\ forall d, flags a d = flags b d.
 
@@ -24,13 +26,13 @@ Qed.
 Ltac unfold_steps :=
   unfold enter, exit_cm, lift_enter, try_enter, try_exit, await_enter, await_exit, hr_enter, hr_exit_pop,
          sbind, add_depth, set_flag, guard_not_awaiting, push_awaiting, pop_assert_awaiting,
-         push_handler, pop_assert_handler in *.
+         push_handler, pop_assert_handler, reset_nry_at_depth0 in *.
 
 (* __enter__ raising leaves the state as it was (and __exit__ is not called) *)
 Lemma enter_raise_unchanged : forall c s e s',
   enter c s = EnterRaise e s' -> gstate_eq (g s') (g s) /\ e = EDeferredCycle.
 Proof.
-  intros c [[dp aw fl hs] ls] e s' H. destruct c; unfold_steps; simpl in H.
+  intros c [[dp aw fl hs nr] ls] e s' H. destruct c; unfold_steps; simpl in H.
   - discriminate.
   - destruct (fl d); inversion H; subst. split; [apply gstate_eq_refl|reflexivity].
   - discriminate.
@@ -41,7 +43,7 @@ Lemma with_restores : forall c s s1, enter c s = EnterOk s1 ->
   forall s2 exc, gstate_eq (g s2) (g s1) ->
   gstate_eq (g (snd (exit_cm c exc s2))) (g s).
 Proof.
-  intros c [[dp aw fl hs] ls] s1 He [[dp2 aw2 fl2 hs2] ls2] exc [E1 [E2 [E3 E4]]].
+  intros c [[dp aw fl hs nr] ls] s1 He [[dp2 aw2 fl2 hs2 nr2] ls2] exc [E1 [E2 [E3 E4]]].
   destruct c; unfold_steps; simpl in *.
   - inversion He; subst; simpl in *. subst. repeat split; simpl; try reflexivity; try lia. exact E4.
   - destruct (fl d) eqn:F; inversion He; subst; simpl in *. subst.
@@ -50,6 +52,9 @@ Proof.
   - inversion He; subst; simpl in *. subst.
     rewrite N.eqb_refl. destruct ox; simpl; repeat split; simpl; try reflexivity; exact E4.
 Qed.
+
+Lemma wait_record_core : forall d x, gstate_eq (wait_record d x) x.
+Proof. intros d x. unfold wait_record. destruct (depth x >? 0); repeat split; reflexivity. Qed.
 
 Theorem state_restored : forall p s, gstate_eq (g (snd (eval p s))) (g s).
 Proof.
@@ -64,6 +69,18 @@ Proof.
   - destruct (flags (g s) d); [apply IHp1|apply IHp2].
   - pose proof (IHp1 s) as H1. destruct (eval p1 s) as [o s']. simpl in H1.
     destruct o; try exact H1; (eapply gstate_eq_trans; [apply IHp2|exact H1]).
+  - destruct (wait_blocked d (g s)); [apply gstate_eq_refl|].
+    destruct (await_enter d (g s)) as [g1|e g'] eqn:En.
+    + assert (En' : enter (CAwait d) s = EnterOk (mk_mstate g1 (latches s))) by (unfold enter, lift_enter; rewrite En; reflexivity).
+      pose proof (IHp1 (mk_mstate g1 (latches s))) as H1. destruct (eval p1 (mk_mstate g1 (latches s))) as [o s2]. simpl in H1.
+      set (s2' := match o with ORaise ENotReady => mk_mstate (wait_record d (g s2)) (latches s2) | _ => s2 end).
+      assert (H2 : gstate_eq (g s2') g1).
+      { subst s2'. destruct o as [| |[]]; try exact H1. simpl. eapply gstate_eq_trans; [apply wait_record_core|exact H1]. }
+      pose proof (with_restores (CAwait d) s _ En' s2' None H2) as R. unfold exit_cm in R.
+      destruct (await_exit d (g s2')) as [g3|e' g3]; simpl in R; [|exact R].
+      destruct o; try exact R; (eapply gstate_eq_trans; [apply IHp2|exact R]).
+    + assert (En' : enter (CAwait d) s = EnterRaise e (mk_mstate g' (latches s))) by (unfold enter, lift_enter; rewrite En; reflexivity).
+      simpl. apply (enter_raise_unchanged _ _ _ _ En').
   - destruct (enter c s) as [s1|e s'] eqn:En.
     + pose proof (IHp1 s1) as H1. destruct (eval p1 s1) as [o s2]. simpl in H1.
       pose proof (with_restores c s s1 En s2 (match o with ORaise e => Some e | _ => None end) H1) as R.
@@ -83,8 +100,13 @@ Qed.
 (* ------------------------------------------------------------------------------------------ *)
 (* the outcome of a program depends on the module-level state and on the latches of the
    handle_reports instances that are on the stack -- on nothing else *)
+Definition nry_ok (a b : gstate) : Prop := depth a > 0 -> nry a = nry b.
 Definition agree (s1 s2 : mstate) : Prop :=
-  gstate_eq (g s1) (g s2) /\ forall h, In h (handlers (g s1)) -> latches s1 h = latches s2 h.
+  gstate_eq (g s1) (g s2) /\
+  (forall h, In h (handlers (g s1)) -> latches s1 h = latches s2 h) /\
+  nry_ok (g s1) (g s2).
+(* [nry_ok]: not_ready_yet has to agree only while speculating (depth > 0); at depth 0 it is dead data:
+   every read is guarded by depth > 0 and every way to depth > 0 passes __enter__ at depth 0, which replaces it *)
 
 Lemma enter_congr : forall c s1 s2, agree s1 s2 ->
   match enter c s1, enter c s2 with
@@ -93,13 +115,14 @@ Lemma enter_congr : forall c s1 s2, agree s1 s2 ->
   | _, _ => False
   end.
 Proof.
-  intros c [[dp aw fl hs] ls] [[dp2 aw2 fl2 hs2] ls2] [[E1 [E2 [E3 E4]]] L]. simpl in *. subst.
+  intros c [[dp aw fl hs nr] ls] [[dp2 aw2 fl2 hs2 nr2] ls2] [[E1 [E2 [E3 E4]]] [L NR]]. unfold nry_ok in *. simpl in *. subst.
   destruct c; unfold_steps; simpl.
-  - split; [repeat split; simpl; auto|exact L].
+  - split; [repeat split; simpl; auto|]. split; [exact L|]. unfold nry_ok. simpl. intros H.
+    destruct (Z.eqb_spec dp2 0); [reflexivity|apply NR; lia].
   - rewrite <- (E4 d). destruct (fl d).
-    + split; [reflexivity|]. split; [repeat split; simpl; auto|exact L].
-    + split; [repeat split; simpl; auto|exact L]. intros x. rewrite E4. reflexivity.
-  - split; [repeat split; simpl; auto|]. simpl. intros x [<-|Hx]; unfold set_latch.
+    + split; [reflexivity|]. split; [repeat split; simpl; auto|]. split; [exact L|exact NR].
+    + split; [repeat split; simpl; auto|]. { intros x. rewrite E4. reflexivity. } split; [exact L|exact NR].
+  - split; [repeat split; simpl; auto|]. split; [|exact NR]. simpl. intros x [<-|Hx]; unfold set_latch.
     + rewrite N.eqb_refl. reflexivity.
     + destruct (N.eqb x h); [reflexivity|apply L; exact Hx].
 Qed.
@@ -107,24 +130,63 @@ Qed.
 Lemma exit_congr : forall c exc s1 s2, agree s1 s2 ->
   fst (exit_cm c exc s1) = fst (exit_cm c exc s2) /\ agree (snd (exit_cm c exc s1)) (snd (exit_cm c exc s2)).
 Proof.
-  intros c exc [[dp aw fl hs] ls] [[dp2 aw2 fl2 hs2] ls2] [[E1 [E2 [E3 E4]]] L]. simpl in *. subst.
+  intros c exc [[dp aw fl hs nr] ls] [[dp2 aw2 fl2 hs2 nr2] ls2] [[E1 [E2 [E3 E4]]] [L NR]]. unfold nry_ok in *. simpl in *. subst.
   destruct c; unfold_steps; simpl.
-  - split; [reflexivity|]. split; [repeat split; simpl; auto|exact L].
+  - split; [reflexivity|]. split; [repeat split; simpl; auto|]. split; [exact L|]. unfold nry_ok. simpl. intros H. apply NR. lia.
   - destruct aw2 as [|top rest]; simpl.
-    + split; [reflexivity|]. split; [repeat split; simpl; auto|exact L].
-    + destruct (N.eqb top d); simpl; (split; [reflexivity|]); (split; [repeat split; simpl; auto|exact L]).
+    + split; [reflexivity|]. split; [repeat split; simpl; auto|]. split; [exact L|exact NR].
+    + destruct (N.eqb top d); simpl; (split; [reflexivity|]); (split; [repeat split; simpl; auto|split; [exact L|exact NR]]).
       intros x. rewrite E4. reflexivity.
   - destruct hs2 as [|top rest]; simpl.
-    + split; [reflexivity|]. split; [repeat split; simpl; auto|exact L].
+    + split; [reflexivity|]. split; [repeat split; simpl; auto|]. split; [exact L|exact NR].
     + assert (L' : forall x, In x rest -> ls x = ls2 x) by (intros x Hx; apply L; right; exact Hx).
       destruct (N.eqb_spec top h) as [->|N]; simpl.
       * rewrite (L h (or_introl eq_refl)).
-        destruct ox; simpl; (split; [reflexivity|]); (split; [repeat split; simpl; auto|exact L']).
-      * split; [reflexivity|]. split; [repeat split; simpl; auto|exact L'].
+        destruct ox; simpl; (split; [reflexivity|]); (split; [repeat split; simpl; auto|split; [exact L'|exact NR]]).
+      * split; [reflexivity|]. split; [repeat split; simpl; auto|split; [exact L'|exact NR]].
 Qed.
 
 Lemma agree_g : forall s1 s2, agree s1 s2 -> gstate_eq (g s1) (g s2).
 Proof. intros s1 s2 [H _]. exact H. Qed.
+
+(* BaseDeferred.wait: the two places that touch not_ready_yet *)
+Lemma wait_blocked_congr : forall d s1 s2, agree s1 s2 -> wait_blocked d (g s1) = wait_blocked d (g s2).
+Proof.
+  intros d s1 s2 [[E1 _] [_ NR]]. unfold wait_blocked, nry_mem. rewrite <- E1.
+  destruct (Z.gtb_spec (depth (g s1)) 0); [|reflexivity]. rewrite (NR ltac:(lia)). reflexivity.
+Qed.
+
+Lemma wait_record_congr : forall d s1 s2, agree s1 s2 ->
+  agree (mk_mstate (wait_record d (g s1)) (latches s1)) (mk_mstate (wait_record d (g s2)) (latches s2)).
+Proof.
+  intros d s1 s2 [[E1 [E2 [E3 E4]]] [L NR]]. unfold wait_record, nry_mem, nry_ok in *. rewrite <- E1.
+  destruct (Z.gtb_spec (depth (g s1)) 0) as [P|P]; simpl.
+  - rewrite <- (NR ltac:(lia)). split; [repeat split; simpl; auto|]. split; [exact L|]. intros _. reflexivity.
+  - split; [repeat split; auto|]. split; [exact L|exact NR].
+Qed.
+
+Lemma await_enter_congr : forall d s1 s2, agree s1 s2 ->
+  match await_enter d (g s1), await_enter d (g s2) with
+  | SOk a, SOk b => agree (mk_mstate a (latches s1)) (mk_mstate b (latches s2))
+  | SRaise e a, SRaise e' b => e = e' /\ agree (mk_mstate a (latches s1)) (mk_mstate b (latches s2))
+  | _, _ => False
+  end.
+Proof.
+  intros d s1 s2 A. pose proof (enter_congr (CAwait d) s1 s2 A) as H. unfold enter, lift_enter in H.
+  destruct (await_enter d (g s1)); destruct (await_enter d (g s2)); exact H.
+Qed.
+
+Lemma await_exit_congr : forall d s1 s2, agree s1 s2 ->
+  match await_exit d (g s1), await_exit d (g s2) with
+  | SOk a, SOk b => agree (mk_mstate a (latches s1)) (mk_mstate b (latches s2))
+  | SRaise e a, SRaise e' b => e = e' /\ agree (mk_mstate a (latches s1)) (mk_mstate b (latches s2))
+  | _, _ => False
+  end.
+Proof.
+  intros d s1 s2 A. pose proof (exit_congr (CAwait d) None s1 s2 A) as [H1 H2]. unfold exit_cm in *.
+  destruct (await_exit d (g s1)); destruct (await_exit d (g s2)); simpl in *; try discriminate; try exact H2.
+  inversion H1. split; [reflexivity|exact H2].
+Qed.
 
 Theorem eval_congr : forall p s1 s2, agree s1 s2 ->
   fst (eval p s1) = fst (eval p s2) /\ agree (snd (eval p s1)) (snd (eval p s2)).
@@ -133,16 +195,15 @@ Proof.
   - split; [reflexivity|exact A].
   - split; [reflexivity|exact A].
   - split; [reflexivity|exact A].
-  - destruct A as [[E1 R] L]. unfold not_ready_raises. rewrite E1.
-    destruct (depth (g s2) >? 0); cbn [fst snd]; [split; [reflexivity|split; [split; assumption|exact L]]|].
-    apply IHp. split; [split; assumption|exact L].
-  - pose proof A as [G L]. pose proof G as [E1 [E2 [E3 E4]]]. unfold top_handler. rewrite <- E3.
+  - pose proof A as [[E1 _] _]. unfold not_ready_raises. rewrite E1.
+    destruct (depth (g s2) >? 0); cbn [fst snd]; [split; [reflexivity|exact A]|]. apply IHp. exact A.
+  - pose proof A as [G [L NR]]. pose proof G as [E1 [E2 [E3 E4]]]. unfold top_handler. rewrite <- E3.
     destruct (handlers (g s1)) as [|h rest] eqn:Hs; simpl.
     + split; [reflexivity|exact A].
     + assert (A' : agree (if emit_sets_latch p then mk_mstate (g s1) (set_latch h true (latches s1)) else s1)
                          (if emit_sets_latch p then mk_mstate (g s2) (set_latch h true (latches s2)) else s2)).
       { destruct (emit_sets_latch p); [|exact A].
-        split; [exact G|]. simpl. intros x Hx. unfold set_latch.
+        split; [exact G|]. split; [|exact NR]. simpl. intros x Hx. unfold set_latch.
         destruct (N.eqb x h); [reflexivity|apply L; rewrite <- Hs; exact Hx]. }
       destruct (emit_raises p); [split; [reflexivity|exact A']|]. apply IHp. exact A'.
   - pose proof A as [[_ [_ [_ E4]]] _]. rewrite <- (E4 d).
@@ -150,6 +211,22 @@ Proof.
   - destruct (IHp1 s1 s2 A) as [O A1].
     destruct (eval p1 s1) as [o1 t1]; destruct (eval p1 s2) as [o2 t2]. simpl in *. subst o2.
     destruct o1; [apply IHp2; exact A1|apply IHp2; exact A1|split; [reflexivity|exact A1]].
+  - rewrite <- (wait_blocked_congr d s1 s2 A).
+    destruct (wait_blocked d (g s1)); [split; [reflexivity|exact A]|].
+    pose proof (await_enter_congr d s1 s2 A) as En.
+    destruct (await_enter d (g s1)) as [a|e a]; destruct (await_enter d (g s2)) as [b|e' b]; try contradiction.
+    + destruct (IHp1 _ _ En) as [O A1].
+      destruct (eval p1 (mk_mstate a (latches s1))) as [o1 t1]; destruct (eval p1 (mk_mstate b (latches s2))) as [o2 t2].
+      simpl in O, A1. subst o2.
+      set (t1' := match o1 with ORaise ENotReady => mk_mstate (wait_record d (g t1)) (latches t1) | _ => t1 end).
+      set (t2' := match o1 with ORaise ENotReady => mk_mstate (wait_record d (g t2)) (latches t2) | _ => t2 end).
+      assert (A2 : agree t1' t2').
+      { subst t1' t2'. destruct o1 as [| |[]]; try exact A1. apply wait_record_congr. exact A1. }
+      pose proof (await_exit_congr d t1' t2' A2) as Ex.
+      destruct (await_exit d (g t1')) as [u|e1 u]; destruct (await_exit d (g t2')) as [v|e2 v]; try contradiction.
+      * destruct o1; [apply IHp2; exact Ex|apply IHp2; exact Ex|split; [reflexivity|exact Ex]].
+      * destruct Ex as [-> Ex]. split; [reflexivity|exact Ex].
+    + destruct En as [-> A1]. split; [reflexivity|exact A1].
   - pose proof (enter_congr c s1 s2 A) as En.
     destruct (enter c s1) as [a|e a]; destruct (enter c s2) as [b|e' b]; try contradiction.
     + destruct (IHp1 a b En) as [O A1].
@@ -173,22 +250,33 @@ Theorem latch_is_per_block : forall p gs l1 l2,
 Proof.
   intros p gs l1 l2 H.
   destruct (eval_congr p (mk_mstate gs l1) (mk_mstate gs l2)) as [O A].
-  - split; [apply gstate_eq_refl|exact H].
+  - split; [apply gstate_eq_refl|]. split; [exact H|]. intros _. reflexivity.
   - split; [exact O|apply agree_g; exact A].
 Qed.
 
 (* the probe behaves as in a fresh process after any history, whatever the history did *)
 Theorem probe_after_history : forall hist p s,
-  handlers (g s) = [] ->
+  handlers (g s) = [] -> depth (g s) = 0 ->
   fst (eval p (run_all hist s)) = fst (eval p s) /\
   gstate_eq (g (snd (eval p (run_all hist s)))) (g s).
 Proof.
-  intros hist p s H.
+  intros hist p s H D.
   pose proof (history_restored hist s) as R.
   assert (A : agree (run_all hist s) s).
-  { split; [exact R|]. destruct R as [_ [_ [R3 _]]]. rewrite R3, H. intros h []. }
+  { split; [exact R|]. destruct R as [R1 [_ [R3 _]]]. split.
+    - rewrite R3, H. intros h [].
+    - unfold nry_ok. rewrite R1, D. lia. }
   destruct (eval_congr p _ _ A) as [O _]. split; [exact O|].
   eapply gstate_eq_trans; [apply state_restored|exact R].
+Qed.
+
+(* in particular: whatever not_ready_yet holds when a run starts outside any speculation is irrelevant *)
+Theorem leftover_not_ready_irrelevant : forall p dp aw fl hs n1 n2 l,
+  dp <= 0 ->
+  fst (eval p (mk_mstate (mk_gstate dp aw fl hs n1) l)) = fst (eval p (mk_mstate (mk_gstate dp aw fl hs n2) l)).
+Proof.
+  intros p dp aw fl hs n1 n2 l D. apply eval_congr.
+  split; [repeat split; reflexivity|]. split; [reflexivity|]. unfold nry_ok. simpl. lia.
 Qed.
 
 (* ------------------------------------------------------------------------------------------ *)
@@ -209,7 +297,7 @@ Lemma with_exit_action : forall c s s1, enter c s = EnterOk s1 ->
   fst (exit_cm c exc s2) = XRaise e ->
   e = EUnrecoverable \/ (exists h, c = CHandle h (ObjRaises e)).
 Proof.
-  intros c [[dp aw fl hs] ls] s1 He [[dp2 aw2 fl2 hs2] ls2] exc e [E1 [E2 [E3 E4]]].
+  intros c [[dp aw fl hs nr] ls] s1 He [[dp2 aw2 fl2 hs2 nr2] ls2] exc e [E1 [E2 [E3 E4]]].
   destruct c; unfold_steps; simpl in *.
   - discriminate.
   - destruct (fl d); inversion He; subst; simpl in *. subst. rewrite N.eqb_refl. simpl. discriminate.
@@ -241,6 +329,27 @@ Proof.
     + simpl in H. inversion H; subst.
       assert (X : fst (eval p1 s) = ORaise e0) by (rewrite E1; reflexivity).
       apply IHp1 in X. destruct X as [X|X]; [left; apply in_or_app; left; exact X|right; exact X].
+  - destruct (wait_blocked d (g s)); [intros H; inversion H; auto|].
+    destruct (await_enter d (g s)) as [g1|e g'] eqn:En.
+    + assert (En' : enter (CAwait d) s = EnterOk (mk_mstate g1 (latches s))) by (unfold enter, lift_enter; rewrite En; reflexivity).
+      pose proof (state_restored p1 (mk_mstate g1 (latches s))) as R.
+      destruct (eval p1 (mk_mstate g1 (latches s))) as [o s2] eqn:E1. simpl in R.
+      set (s2' := match o with ORaise ENotReady => mk_mstate (wait_record d (g s2)) (latches s2) | _ => s2 end).
+      assert (R2 : gstate_eq (g s2') g1).
+      { subst s2'. destruct o as [| |[]]; try exact R. simpl. eapply gstate_eq_trans; [apply wait_record_core|exact R]. }
+      pose proof (with_exit_action (CAwait d) s _ En' s2' None) as W. unfold exit_cm in W.
+      destruct (await_exit d (g s2')) as [g3|e' g3]; simpl in W.
+      * destruct o; intros H.
+        -- apply IHp2 in H. destruct H as [H|H]; [left; apply in_or_app; right; exact H|right; exact H].
+        -- apply IHp2 in H. destruct H as [H|H]; [left; apply in_or_app; right; exact H|right; exact H].
+        -- simpl in H. inversion H; subst.
+           assert (X : fst (eval p1 (mk_mstate g1 (latches s))) = ORaise e0) by (rewrite E1; reflexivity).
+           apply IHp1 in X. destruct X as [X|X]; [left; apply in_or_app; left; exact X|right; exact X].
+      * intros H. simpl in H. inversion H; subst.
+        destruct (W e0 R2 eq_refl) as [->|[h Hh]]; [auto 6|discriminate].
+    + assert (En' : enter (CAwait d) s = EnterRaise e (mk_mstate g' (latches s))) by (unfold enter, lift_enter; rewrite En; reflexivity).
+      intros H. simpl in H. inversion H; subst.
+      destruct (enter_raise_unchanged _ _ _ _ En') as [_ ->]. auto.
   - destruct (enter c s) as [s1|e s'] eqn:En.
     + pose proof (state_restored p1 s1) as R.
       destruct (eval p1 s1) as [o s2] eqn:E1. simpl in R.
